@@ -124,6 +124,11 @@ def c15(tier, seed):
     cov, out, err = Coverage(), [], None
     try:
         cases = gen.derivation_cases(rng, 30 if tier == "quick" else 600)
+        # geometry corners of the systematic skeleton that are about derivation windows
+        geo = {"stride", "late-start", "mixed-readiness", "early-start-over-complex", "window-of-window", "window3-of-transition",
+               "two-complex", "design-order"}
+        cases += [c for c in gen.systematic_corner() + gen.systematic_flat()
+                  if set(c.get("tags", [])) & geo and "run-length-on-stride" not in c.get("tags", [])]     # (KF10 is about constraints)
         cases += common.witness_cases("C15")
         cases = common.replay_cases() or cases
 
